@@ -1,7 +1,8 @@
 (* C10 -- estimates ignore sample order, conditioning-column order and X/Y roles. *)
 From Coq Require Import List ZArith QArith Reals Permutation.
 From CE Require Import Model.Itv Model.KnnCounts Model.Kde Model.PoissonMI Model.PoissonCMI Model.Poisson
-     Proofs.KnnInvProofs Proofs.KdeInvProofs Proofs.PoissonMIProofs Proofs.PoissonCMIProofs Proofs.PoissonCMIValues.
+     Proofs.KnnInvProofs Proofs.KdeInvProofs Proofs.PoissonMIProofs Proofs.PoissonCMIProofs Proofs.PoissonCMIValues
+     Proofs.PoissonSeries Proofs.PoissonCMISeries.
 Import ListNotations.
 Close Scope Q_scope.
 
@@ -166,3 +167,15 @@ Theorem C10_poisson_conditional_zorder_changes_the_entropy_arguments : exists M 
   (exists x, count_sr x (fst t) <> count_sr x (fst t')) /\ ~ (snd t == snd t')%Q.
 Proof. exact zorder_rates_differ. Qed.
 Print Assumptions C10_poisson_conditional_zorder_changes_the_entropy_arguments.
+
+(* K2a / K2b with the Poisson entropy series itself (every truncation from 30 terms on, hence the entropy): on the witness sample the
+   model's estimate moves by more than 3/4 when X and Y are exchanged and by more than 1/10 when Z's two columns are exchanged *)
+Theorem C10_poisson_conditional_swap_refuted_for_the_entropy_series : forall K, (30 <= K)%nat ->
+  (pcmi_valueR (fun lam => partial_entropy lam K) t_orig + 3 / 4 < pcmi_valueR (fun lam => partial_entropy lam K) t_swap)%R.
+Proof. exact swap_values_differ_for_the_poisson_entropy_series. Qed.
+Print Assumptions C10_poisson_conditional_swap_refuted_for_the_entropy_series.
+
+Theorem C10_poisson_conditional_zorder_refuted_for_the_entropy_series : forall K, (30 <= K)%nat ->
+  (pcmi_valueR (fun lam => partial_entropy lam K) t_zrev + 1 / 10 < pcmi_valueR (fun lam => partial_entropy lam K) t_orig)%R.
+Proof. exact zorder_values_differ_for_the_poisson_entropy_series. Qed.
+Print Assumptions C10_poisson_conditional_zorder_refuted_for_the_entropy_series.
